@@ -53,7 +53,7 @@ def handleRepo (line : String) : String :=
     if ops.length != outs.length then "bad" else
     -- the model's directory is a flat map of plain file names: a history that plants a sub directory is outside the
     -- model and is judged against the specification only (on what the Go code did to the directory)
-    let flat := !ops.any (·.startsWith "plantdir:")
+    let flat := !ops.any (fun o => o.startsWith "plantdir:" || o.startsWith "plantlink:")
     let (_, diffs, viols, _) := (ops.zip outs).foldl (fun (acc : Dir × List String × List String × List (String × String)) (x : String × String) =>
       let (d, diffs, viols, prev) := acc
       let (op, out) := x
